@@ -77,14 +77,36 @@ def events(names, obs, result, vocab=W.VOCAB):
     return ev
 
 
-def run_sequences(ctx, binary, seqs, envtok, mk_scenario, name, data_verdicts=None, vocab=W.VOCAB):
-    lines = [W.model_line(envtok, s, data_verdicts, vocab=vocab) for s in seqs]
+BIGMSG = b'Subject: big\r\n\r\n' + b''.join(b'%04d ' % i + b'x' * 90 + b'\r\n' for i in range(1500)) + b'.\r\n'
+
+# behaviours of the queueing child (qq_standin script line) and what they mean for DATA
+QQ_FAULTS = [('all all 0', 'D;ok'), ('0 0 1', 'D;rf;451;edone'), ('all all 31', 'D;rf;554;edone'), ('all all 1', 'D;rf;451;edone'),
+             ('all all -9', 'D;rf;451;edone'), ('1000 0 0', 'D;rf;451;edone'), ('all all 111', 'D;rf;451;edone'), ('all all 40', 'D;rf;554;edone')]
+
+
+def fault_sequences(ctx):
+    """transactions whose DATA fails in the queueing child at different points, followed by commands
+    that must not see anything of the failed transaction"""
+    rng = ctx.rng
+    out = []
+    tails = [['rcpt_carol', 'data'], ['data'], ['mail', 'rcpt_carol', 'data'], ['rset', 'mail_local', 'rcpt_alice', 'data'],
+             ['rcpt_remote', 'rcpt_alice', 'data', 'noop'], ['ehlo', 'mail', 'rcpt_carol', 'data']]
+    for f1 in QQ_FAULTS:
+        for tail in tails:
+            f2 = rng.choice(QQ_FAULTS)
+            out.append((['ehlo', 'mail', 'rcpt_alice', 'rcpt_carol', 'data'] + tail, [f1, f2, rng.choice(QQ_FAULTS)]))
+    return out
+
+
+def run_sequences(ctx, binary, seqs, envtok, mk_scenario, name, data_verdicts=None, vocab=W.VOCAB, msg=None, per_seq=None):
+    """per_seq: optional list (one per sequence) of (DATA verdict tokens, scenario maker)"""
+    lines = [W.model_line(envtok, s, per_seq[k][0] if per_seq else data_verdicts, vocab=vocab) for k, s in enumerate(seqs)]
     mouts = vlib.run_batch(ctx.driver, lines) if ctx.driver else ['NO-DRIVER'] * len(seqs)
     models = [W.parse_model(o) for o in mouts]
     scs, meta = [], []
-    for s, m in zip(seqs, models):
-        items, owner = W.build_items(s, m, vocab=vocab)
-        sc = mk_scenario()
+    for k, (s, m) in enumerate(zip(seqs, models)):
+        items, owner = W.build_items(s, m, vocab=vocab, **({'msg': msg} if msg else {}))
+        sc = per_seq[k][1]() if per_seq else mk_scenario()
         sc.items = items
         scs.append(sc); meta.append((items, owner))
     rs = session.run_sessions(ctx, binary, scs)
@@ -117,6 +139,11 @@ def run(ctx):
     if b:
         seqs = gen_sequences(ctx)
         run_sequences(ctx, b, seqs, W.env_token(), lambda: W.base_scenario(), 'command-sequences')
+        # DATA failing in the queueing child (before reading, mid message, exit codes, signal): per case its own script
+        fs = fault_sequences(ctx)
+        ctx.count('queue-fault-sequences', len(fs))
+        run_sequences(ctx, b, [s for s, _ in fs], W.env_token(), None, 'queue-faults', vocab=dict(W.VOCAB), msg=BIGMSG,
+                      per_seq=[([v for _, v in faults], (lambda faults=faults: W.base_scenario(qq=[f for f, _ in faults]))) for _, faults in fs])
     if not ctx.quick():
         vlib.leanchecker(ctx, ['QsmtpModel.Props.C08'])
     return vlib.finish(ctx, assumptions=[
